@@ -227,14 +227,14 @@ theorem safe_evalL (ht : TreeOK cfg.tree) : ∀ (ef : Nat) (lv : LVal) (vs : Lis
 
 /-! ### the execute phase -/
 
-theorem Safe.fromNodesL (vs : List LVal) (q : Quant) (nodes : List Nat) (hq : q ≠ .zero) (h1 : q = .one → nodes ≠ []) :
+theorem Safe.fromNodesL (vs : List LVal) (q : Quant) (nodes : List Nat) (hq : q ≠ .zero) :
     Safe cfg vs (Strict.fromNodes q nodes : Prog LSt Val) := by
   unfold Strict.fromNodes
   cases q with
   | zero => exact (hq rfl).elim
   | one =>
     cases nodes with
-    | nil => exact (h1 rfl rfl).elim
+    | nil => exact Safe.throwK vs _
     | cons n r => exact Safe.pure vs _ (fun _ _ _ => by simp [HasVals.vals, lwfs, lwf, wf])
   | zeroOrMore | oneOrMore =>
     refine Safe.pure vs _ (fun k t _ => ?_)
@@ -331,7 +331,7 @@ theorem safe_lazyExpr (ht : TreeOK cfg.tree) (fuel ef : Nat) : ∀ m : Nat,
           | some q' =>
             simp only
             have := hq name q' hl
-            exact Safe.bind (Safe.fromNodesL vs q' _ this.1 this.2) fun v => Safe.pure _ _ (fun n t hn => by
+            exact Safe.bind (Safe.fromNodesL vs q' _ this) fun v => Safe.pure _ _ (fun n t hn => by
               simp only [HasVals.vals, List.cons_append, lwfs] at hn ⊢; exact ⟨hn.1, trivial⟩)
       | var name l => rw [lazyExpr]; exact Safe.unscopedGetL vs name
       | scopedVar scope name l =>
